@@ -33,6 +33,9 @@ type Baton struct {
 	// when every goroutine that may want that mutex is itself scheduled by the baton
 	// (it is then kept parked at its Acquire point until the mutex is free).
 	ParkHolding bool
+	// PreemptSite (debugging and demonstrations): in Drive's preemptive modes the running
+	// task is also preempted the first time it is parked at a site containing this text.
+	PreemptSite string
 	owner       uint64 // the simulator goroutine: it must never park itself
 	holders     map[uintptr]*holder
 	depth       map[uint64]int // instrumented mutexes held per goroutine
@@ -96,7 +99,9 @@ func (b *Baton) Hook(site string) { b.park(site, 0, false) }
 
 // AcquireHook is installed as verifauto.AcquireHook: a scheduling point that names
 // the mutex the goroutine takes next.
-func (b *Baton) AcquireHook(site string, mutex uintptr, exclusive bool) { b.park(site, mutex, exclusive) }
+func (b *Baton) AcquireHook(site string, mutex uintptr, exclusive bool) {
+	b.park(site, mutex, exclusive)
+}
 
 // LockHook is installed as verifauto.LockHook.
 func (b *Baton) LockHook(mutex uintptr, delta int, exclusive bool) {
@@ -238,4 +243,82 @@ func (b *Baton) ReleaseAll() {
 	for _, p := range ps {
 		close(p.ch)
 	}
+}
+
+// Drive releases parked tasks one at a time until nobody is parked. The tape
+// picks the policy:
+//   - uniformly random at every step;
+//   - PCT-like: one task runs on while it can and is preempted at one or two
+//     tape-chosen depths - the schedules "A runs deep into its critical sections,
+//     then B runs to the end" that a uniform choice practically never produces;
+//   - sticky with biased preemption: the running task keeps running and is
+//     preempted with probability 1/3 where it has just left a critical section or
+//     a lock-free operation (":unlocked", ":synced" - where read-then-act windows
+//     open) and 1/16 elsewhere.
+//
+// settle must wait until the released task is parked again, blocked or finished;
+// visit is told what is about to run.
+func (b *Baton) Drive(t *Tape, settle func(), visit func(p *Parked, runnable, waiting int), maxSteps int) (steps int, stuck bool) {
+	mode := t.Choose(4) // 0: uniform; 1: one preemption; 2: two preemptions; 3: sticky, biased
+	var switchAt []int
+	if mode == 1 || mode == 2 {
+		switchAt = append(switchAt, t.Range(0, 64))
+		if mode == 2 {
+			switchAt = append(switchAt, switchAt[0]+t.Range(1, 32))
+		}
+	}
+	var cur uint64
+	for ; steps < maxSteps; steps++ {
+		settle()
+		pk := b.Parked()
+		if len(pk) == 0 {
+			return steps, b.Waiting() > 0
+		}
+		var p *Parked
+		if mode == 0 {
+			p = pk[t.Choose(len(pk))]
+		} else {
+			var mine *Parked
+			for _, q := range pk {
+				if q.Goid == cur {
+					mine = q
+				}
+			}
+			preempt := false
+			switch {
+			case mine == nil || len(pk) == 1:
+			case mode == 3:
+				if strings.HasSuffix(mine.Site, ":synced") || strings.HasSuffix(mine.Site, ":unlocked") {
+					preempt = t.Chance(1, 3)
+				} else {
+					preempt = t.Chance(1, 16)
+				}
+			default:
+				if len(switchAt) > 0 && steps >= switchAt[0] {
+					preempt, switchAt = true, switchAt[1:]
+				}
+			}
+			if mine != nil && b.PreemptSite != "" && strings.Contains(mine.Site, b.PreemptSite) && len(pk) > 1 {
+				preempt, b.PreemptSite = true, ""
+			}
+			if mine != nil && !preempt {
+				p = mine
+			} else {
+				var others []*Parked
+				for _, q := range pk {
+					if q.Goid != cur {
+						others = append(others, q)
+					}
+				}
+				if len(others) == 0 {
+					others = pk
+				}
+				p = others[t.Choose(len(others))]
+			}
+			cur = p.Goid
+		}
+		visit(p, len(pk), b.Waiting())
+		b.Release(p)
+	}
+	return steps, true
 }
